@@ -119,13 +119,11 @@ def b_tuple(E, v=()):
     if isinstance(v, I._GenOut):
         v = v.val
     if isinstance(v, SSeq):
-        if v.kind == "bytes" or v.elem == "int":
-            return SSeq(v.t, "tuple", v.elem)
-        return SSeq(v.t, "tuple", v.elem)
+        return SSeq(v.t, "tuple", v.elem, rng=v.rng)
     if isinstance(v, ASeq):
         return ASeq(v.arr, v.n, "tuple")
     if isinstance(v, ListObj) and v.seq is not None:
-        return SSeq(v.seq.t, "tuple", v.seq.elem)
+        return SSeq(v.seq.t, "tuple", v.seq.elem, rng=v.seq.rng)
     if isinstance(v, Obj) and "__tuple__" in v.fields:
         return v.fields["__tuple__"]
     items = E.concrete_items(v)
@@ -183,6 +181,8 @@ def b_bytes(E, v=b""):
         return r
     if isinstance(v, I._GenOutIter):
         v = v.seq
+    if isinstance(v, I._GenOut):
+        v = v.val
     if isinstance(v, SSeq) and v.elem == "int":
         return SSeq(v.t, "bytes", "int")
     if isinstance(v, ASeq):
@@ -460,7 +460,7 @@ def x_chain(E, *parts):
         if isinstance(p, bytes):
             p = tuple(p)
         if isinstance(p, SSeq):
-            p = SSeq(p.t, "tuple", p.elem)
+            p = SSeq(p.t, "tuple", p.elem, rng=p.rng)
         acc = ops.seq_concat(acc, p)
     return acc
 
@@ -508,16 +508,23 @@ def x_is_list_like(E, v):
 
 
 def x_partition_all(E, n, seq):
+    seq = refine(E, seq)
     items = E.concrete_items(seq)
     if items is None:
-        raise Unsupported("partition_all over a symbolic sequence")
+        ln = as_int_term(ops.length(seq))
+        if not isinstance(n, int) or not E.implied(mk_bool(ln % n == 0)):
+            raise Unsupported("partition_all over a symbolic sequence whose length is not known to be a multiple")
+        return I._Partition(n, seq)
     return [tuple(items[i:i + n]) for i in range(0, len(items), n)]
 
 
 def x_partition(E, n, seq):
+    seq = refine(E, seq)
     items = E.concrete_items(seq)
     if items is None:
-        raise Unsupported("partition over a symbolic sequence")
+        if not isinstance(n, int):
+            raise Unsupported("partition with symbolic chunk size")
+        return I._Partition(n, seq)       # len div n complete chunks; an incomplete tail is dropped
     return [tuple(items[i:i + n]) for i in range(0, len(items) - n + 1, n)]
 
 
@@ -593,6 +600,13 @@ def symbolic_comp(E, node, fr, sc, kind):
         return QuantIter(i, as_int_term(n), as_bool_term(val))
     if kind == "set":
         raise Unsupported("set comprehension over symbolic data")
+    if ops.is_intlike(val) and _is_array_source(it):
+        nm = E.fresh_name("comp")
+        arr = z3.Const(nm + ".a", z3.ArraySort(IntS, IntS))
+        E.assume(SBool(z3.ForAll([i], z3.Implies(z3.And(i >= 0, i < as_int_term(n)),
+                                                  z3.Select(arr, i) == as_int_term(val)), patterns=[z3.Select(arr, i)])))
+        r = ASeq(arr, z3.simplify(as_int_term(n)), "tuple")
+        return I._GenOutIter(r) if kind == "gen" else r
     if ops.is_intlike(val):
         r = E.fresh_seq("comp", "tuple" if kind == "gen" else "list", "int")
         E.assume(SBool(z3.Length(r.t) == as_int_term(n)))
@@ -608,6 +622,18 @@ def symbolic_comp(E, node, fr, sc, kind):
     raise Unsupported("comprehension element %r over symbolic data" % (val,))
 
 
+def _is_array_source(it):
+    if isinstance(it, ASeq):
+        return True
+    if isinstance(it, (I._Partition, I._Reversed)):
+        return _is_array_source(it.seq)
+    if isinstance(it, I._Enumerate):
+        return _is_array_source(it.inner)
+    if isinstance(it, I._Zip):
+        return any(_is_array_source(p) for p in it.parts)
+    return False
+
+
 def _iter_len(E, it):
     if isinstance(it, I._Zip):
         ls = [_iter_len(E, p) for p in it.parts]
@@ -619,6 +645,8 @@ def _iter_len(E, it):
         return _iter_len(E, it.inner)
     if isinstance(it, I._Reversed):
         return _iter_len(E, it.seq)
+    if isinstance(it, I._Partition):
+        return mk_int(as_int_term(ops.length(it.seq)) / it.n)
     if isinstance(it, I._Range):
         d = ops.arith("-", it.stop, it.start)
         return mk_int(z3.If(as_int_term(d) > 0, as_int_term(d), 0))
